@@ -22,7 +22,8 @@ SHAPES = {2: [(1, 2), (3, 2)], 3: [(1, 2, 3), (2, 1, 2)], 4: [(1, 2, 3, 1), (2, 
 
 
 def _labels(d, labelled):
-    return ['pop%s' % chr(65 + i) for i in range(d)] if labelled else None
+    # names whose alphabetical order is not their axis order
+    return ['YRI', 'CEU', 'JPT', 'ASW', 'MXL', 'CHB'][:d] if labelled else None
 
 
 def _cmp(col, key, p, got, ref_d, ref_m, labels, folded=False, tol=1e-12):
@@ -101,7 +102,10 @@ def _ref_apply(op, d, m, labels, folded):
 def _impl_apply(op, fs):
     kind = op[0]
     if kind == 'marg':
-        return fs.marginalize(list(op[1]))
+        over = list(op[1])
+        if len(over) == 1 and over[0] % 2 == 1:
+            over = [over[0] - fs.ndim]          # the same axis counted from the end, numpy style
+        return fs.marginalize(over)
     if kind == 'filter':
         return fs.filter_pops(list(op[1]))
     if kind == 'reorder':
